@@ -129,6 +129,7 @@ def judge(traces: list[dict], *, module: str = "TraceReader", timeout: int = 900
         return {}
     chunks, cur, n = [], [], 0
     for t in traces:
+        t.setdefault("prefix", False)
         cur.append(t)
         n += len(t["rows"]) + 1
         if n >= chunk_rows:
